@@ -134,9 +134,10 @@ pub fn run(args: &Args) {
          case rejected with diagnostics; distinct by the rendered files",
     );
     report.engine("subproc");
+    vcore::set_max_shrink_iters(200);
     report.assumption("isograph_cli (debug profile) built from the working tree by the dispatcher");
     report.assumption("a process that does not finish within 120 s is counted as inconclusive, not as a crash");
-    let ex = Exclusions::default();
+    let ex = Exclusions { allow_risky: true, ..Exclusions::default() };
 
     if let Some(path) = &args.replay {
         let v = vcore::read_replay(path);
@@ -150,7 +151,7 @@ pub fn run(args: &Args) {
     }
     report.run_regressions(|input| run_files(&cases::load_case_files(input)).map(|_| ()));
 
-    let cases_n = args.tier.pick(1600, 80_000);
+    let cases_n = args.tier.pick(1000, 80_000);
     let res = vcore::run_prop_parallel(
         &report,
         "projects",
